@@ -405,6 +405,10 @@ Definition smsg_tags (l : list smsg) : list (N * N) :=
 
 (* messages that the reference routing addresses to sessions without a connection are what a
    later resume must deliver, in order, once *)
+(* "repeated chat-refresh notices may be merged into one": the message with tag 77 is the driver's chat-refresh notice *)
+Definition qadd (l : list (N * N)) (e : N * N) : list (N * N) :=
+  if pair_eqb e (0, 77) && existsb (pair_eqb (0, 77)) l then l else l ++ [e].
+
 Definition update_queue (pd : digest) (o : op) (q : alist (list (N * N))) : alist (list (N * N)) :=
   match o with
   | OMsg c to tag | OCtl c to tag =>
@@ -415,7 +419,7 @@ Definition update_queue (pd : digest) (o : op) (q : alist (list (N * N))) : alis
           let targets := if N.eqb kindn 1 && negb (control_allowed s) then [] else route_spec pd s to in
           fold_left (fun acc t => match find_sd pd (fst t) with
                                   | Some x => match x.(d_conn) with
-                                              | None => aset acc (fst t) ((match aget acc (fst t) with Some l => l | None => [] end) ++ [(kindn, tag)])
+                                              | None => aset acc (fst t) (qadd (match aget acc (fst t) with Some l => l | None => [] end) (kindn, tag))
                                               | Some _ => acc end
                                   | None => acc end) targets q
       end
